@@ -271,6 +271,105 @@ def unit_direct_solve(nsub, nonhermitian, timeout_ms=20000):
                     functions=[(MODULE, "solve_sylvester_direct/solve_sylvester")], timeout_ms=timeout_ms)
 
 
+def _look(env, name):
+    return env.lookup(name) if env.has(name) else None
+
+
+def unit_direct_setup(nsub, nonhermitian, opts="none", timeout_ms=20000):
+    """The body of solve_sylvester_direct itself (everything outside its nested functions): which quantities the nested functions (each under its own
+    contract above) are wired to.  opts: which solver options are supplied - none | eigenvalue_atol | atol (deprecated alias) | eps (deprecated, ignored) | extra."""
+    node = frontend.find(MODULE, "solve_sylvester_direct")
+
+    def harness(eng):
+        h0 = T("h_0")
+        R = [T(f"R{b}") for b in range(nsub)]
+        L = [T(f"L{b}") for b in range(nsub)]
+        grouped_calls, diag_calls, warns = [], [], []
+        tol_user = T("user_tolerance")
+
+        def normalize(e, ev):
+            return STup([STup(list(R), None, True), STup(list(L), None, True)])
+
+        def grouped_contract(clo):
+            def call(e, operator, right_kernel_subspaces, left_kernel_subspaces, conjugate_kernel=None):
+                grouped_calls.append((operator, right_kernel_subspaces, left_kernel_subspaces, conjugate_kernel,
+                                      _look(clo.env, "eigenvalues"), _look(clo.env, "eigenvalue_atol"), _look(clo.env, "factorization_options")))
+                return T("grouped", T(f"call{len(grouped_calls) - 1}"))
+            return Builtin("grouped_greens_functions", call)
+
+        def diag_solver(e, eigs, vecs_implicit=None, atol=None):
+            diag_calls.append((eigs, vecs_implicit, atol))
+            return T("explicit_part")
+
+        def hstack(e, seq):
+            return T("hstack", *e.as_seq(seq).items)
+
+        def warn(e, msg, cat=None, stacklevel=None):
+            warns.append((msg, cat))
+        eng.nested_contracts = {"grouped_greens_functions": grouped_contract}
+        eng.globals.update({"_normalize_subspace_eigenvectors": Builtin("_normalize_subspace_eigenvectors", normalize),
+                            "ComplementProjector": Builtin("ComplementProjector", lambda e, a, b=None: T("ComplementProjector", a, b)),
+                            "np": Namespace("np", dict({"hstack": Builtin("hstack", hstack), "diag": Builtin("diag", lambda e, x: T("diag", x))},
+                                                  # any other element-wise numpy function applied to the energies is a different term: refuted, not unsupported
+                                                  **{f: Builtin(f, (lambda f_: lambda e, x, *a, **kw: T("np." + f_, x))(f)) for f in ("real", "imag", "abs", "conj", "asarray", "array", "sort", "round", "real_if_close")})),
+                            "Dagger": Builtin("Dagger", lambda e, x: T("Dagger", x)), "solve_sylvester_diagonal": Builtin("solve_sylvester_diagonal", diag_solver),
+                            "warn": Builtin("warn", warn), "DeprecationWarning": TypeObj("DeprecationWarning"), "zero": ZERO,
+                            "direct_greens_function": T("direct_greens_function"), "_group_close_energies": T("_group_close_energies")})
+        kwargs = {"none": {}, "eigenvalue_atol": {"eigenvalue_atol": tol_user}, "atol": {"atol": tol_user}, "eps": {"eps": T("eps")},
+                  "extra": {"eigenvalue_atol": tol_user, "ordering": T("ordering_option")}}[opts]
+        kwargs = dict(kwargs, nonhermitian=nonhermitian) if (nonhermitian or opts == "extra") else dict(kwargs)
+        res = eng.call(Closure(node, Env(None, {}), "solve_sylvester_direct"), [h0, STup([T(f"vecs{b}") for b in range(nsub)], None, True)], kwargs)
+        ok = isinstance(res, Closure) and res.name == "solve_sylvester"
+        eng.oblige("returns-its-nested-solve_sylvester", z3.BoolVal(ok), detail=repr(res)[:200])
+        if not ok:
+            return
+        env = res.env
+        want_eigs = [T("diag", T("MatMult", T("MatMult", T("Dagger", L[b]), h0), R[b])) for b in range(nsub)]
+
+        def eigs_ok(v):
+            try:
+                items = eng.as_seq(v).items
+            except Exception:  # noqa: BLE001
+                return False
+            return len(items) == nsub and all(term_eq_py(x, w) for x, w in zip(items, want_eigs))
+        eng.oblige("energies-are-the-diagonal-of-L^dagger-h_0-R-per-subspace-unmodified", z3.BoolVal(eigs_ok(_look(env, "eigenvalues"))),
+                   detail="eigenvalues[b] = np.diag(Dagger(left_b) @ h_0 @ right_b): complex energies of a non-Hermitian h_0 are kept whatever the flag says; " + repr(_look(env, "eigenvalues"))[:300])
+        want_P = T("ComplementProjector", T("hstack", *R), T("hstack", *L))
+        eng.oblige("projector-is-the-complement-of-all-explicit-vectors-with-their-left-partners", z3.BoolVal(term_eq_py(_look(env, "projector"), want_P)), detail=repr(_look(env, "projector"))[:300])
+        tol_want = tol_user if opts in ("eigenvalue_atol", "atol", "extra") else None
+
+        def tol_ok(v):
+            if tol_want is None:
+                return isinstance(v, float) and v == 1e-12
+            return v is tol_want
+        eng.oblige("explicit-pairs-are-solved-by-the-diagonal-solver-with-the-same-energies-and-tolerance",
+                   z3.BoolVal(len(diag_calls) == 1 and eigs_ok(diag_calls[0][0]) and diag_calls[0][1] is None and tol_ok(diag_calls[0][2]) and term_eq_py(_look(env, "explicit_part"), T("explicit_part"))),
+                   detail=repr(diag_calls)[:300])
+        n_want = 2 if nonhermitian else 1
+        eng.oblige("greens-functions-prepared-once-per-needed-orientation", z3.BoolVal(len(grouped_calls) == n_want), detail=f"{len(grouped_calls)} calls")
+        if len(grouped_calls) == n_want:
+            op, rk, lk, cj, ev, tol, fo = grouped_calls[0]
+            okr = (isinstance(op, T) and op.head == "attr:T" and op.args[0] is h0 and [*eng.as_seq(rk).items] == L and [*eng.as_seq(lk).items] == R and cj is True
+                   and eigs_ok(ev) and tol_ok(tol))
+            eng.oblige("right-implicit-greens-functions:transposed-h_0-conjugated-kernels-left-vectors-as-kernel", z3.BoolVal(okr), detail=repr(grouped_calls[0])[:400])
+            eng.oblige("right-implicit-greens-functions-are-what-the-solver-uses", z3.BoolVal(term_eq_py(_look(env, "greens_functions_right"), T("grouped", T("call0")))))
+            if nonhermitian:
+                op, rk, lk, cj, ev, tol, fo = grouped_calls[1]
+                okl = (op is h0 and [*eng.as_seq(rk).items] == R and [*eng.as_seq(lk).items] == L and cj is False and eigs_ok(ev) and tol_ok(tol))
+                eng.oblige("left-implicit-greens-functions:h_0-itself-right-vectors-as-kernel", z3.BoolVal(okl), detail=repr(grouped_calls[1])[:400])
+                eng.oblige("left-implicit-greens-functions-are-what-the-solver-uses", z3.BoolVal(term_eq_py(_look(env, "greens_functions_left"), T("grouped", T("call1")))))
+            else:
+                eng.oblige("without-nonhermitian-no-left-implicit-greens-functions", z3.BoolVal(_look(env, "greens_functions_left") is None))
+            fo = grouped_calls[0][6]
+            keys = set(fo) if isinstance(fo, dict) else None
+            eng.oblige("factorization-options-are-the-solver-options-without-the-tolerance-keys",
+                       z3.BoolVal(keys == ({"ordering"} if opts == "extra" else set())), detail=repr(fo)[:200])
+        n_warn = {"atol": 1, "eps": 1}.get(opts, 0)
+        eng.oblige("deprecation-warnings-only-for-deprecated-options", z3.BoolVal(len(warns) == n_warn), detail=repr(warns)[:200])
+    return run_unit(f"block_diagonalization:solve_sylvester_direct[{nsub} explicit subspaces{',nonhermitian' if nonhermitian else ''},options={opts}]", harness,
+                    functions=[(MODULE, "solve_sylvester_direct")], timeout_ms=timeout_ms)
+
+
 def term_eq_py(a, b):
     if isinstance(a, T) and isinstance(b, T):
         return a.head == b.head and len(a.args) == len(b.args) and all(term_eq_py(x, y) for x, y in zip(a.args, b.args))
